@@ -88,6 +88,17 @@ func (g *gate) EndProcessing() {
 	g.done <- true
 }
 
+// work is called by the stub that stands for the task's work (processor.Validate / the resolver's lookup): the work item
+// is in flight between the two grants
+func (g *gate) work() {
+	g.ann <- "WorkBegin"
+	<-g.grant
+	g.done <- true
+	g.ann <- "WorkEnd"
+	<-g.grant
+	g.done <- true
+}
+
 func (g *gate) IsInterfaceNil() bool { return g == nil }
 
 // ---------------------------------------------------------------------------------------------- threads
@@ -100,6 +111,8 @@ type thread struct {
 	returned  bool
 	retErr    error
 	run       int    // StartProcessing minus EndProcessing calls observed
+	wleft     int    // work items the specification still expects for this message
+	work      int    // work items in flight
 	starts    int    // StartProcessing calls that went through this thread's decorator
 	ends      int    // EndProcessing calls that went through this thread's decorator
 	pending   string // an announced call that has not been granted yet
@@ -125,7 +138,7 @@ func (th *thread) next(timeout time.Duration) (op string, got bool) {
 	th.launch()
 	for {
 		if th.returned {
-			if th.run <= 0 {
+			if th.run <= 0 && th.wleft <= 0 {
 				// synchronous part is over and no task is open: only a stray asynchronous call could still come
 				select {
 				case op = <-th.g.ann:
@@ -248,9 +261,10 @@ func elements(sub string) []string {
 	return []string{sub}
 }
 
-func processor(sub string) *mock.InterceptorProcessorStub {
+func processor(sub string, g *gate) *mock.InterceptorProcessorStub {
 	return &mock.InterceptorProcessorStub{
 		ValidateCalled: func(process.InterceptedData) error {
+			g.work() // the processing of one element
 			if sub == "validatefail" {
 				return errStub
 			}
@@ -293,7 +307,7 @@ func interceptorInput(sub string, data []byte) (p2p.MessageP2P, core.PeerID) {
 }
 
 func buildSingle(th *thread) {
-	arg := interceptors.ArgSingleDataInterceptor{Topic: "verif", DataFactory: factory(th.sub), Processor: processor(th.sub),
+	arg := interceptors.ArgSingleDataInterceptor{Topic: "verif", DataFactory: factory(th.sub), Processor: processor(th.sub, th.g),
 		Throttler: th.g, AntifloodHandler: antiflood(th.sub), WhiteListRequest: whitelist(th.sub),
 		PreferredPeersHolder: holder(th.sub), CurrentPeerId: selfID}
 	sdi, err := interceptors.NewSingleDataInterceptor(arg)
@@ -306,7 +320,7 @@ func buildSingle(th *thread) {
 
 func buildMulti(th *thread) {
 	arg := interceptors.ArgMultiDataInterceptor{Topic: "verif", Marshalizer: marsh, DataFactory: factory(th.sub),
-		Processor: processor(th.sub), Throttler: th.g, AntifloodHandler: antiflood(th.sub), WhiteListRequest: whitelist(th.sub),
+		Processor: processor(th.sub, th.g), Throttler: th.g, AntifloodHandler: antiflood(th.sub), WhiteListRequest: whitelist(th.sub),
 		PreferredPeersHolder: holder(th.sub), CurrentPeerId: selfID}
 	mdi, err := interceptors.NewMultiDataInterceptor(arg)
 	if err != nil {
@@ -345,7 +359,9 @@ func buildResolver(th *thread) {
 	sub := th.sub
 	packer, _ := partitioning.NewSimpleDataPacker(marsh)
 	pool := testscommon.NewShardedDataStub()
+	g := th.g
 	pool.SearchFirstDataCalled = func([]byte) (interface{}, bool) {
+		g.work() // resolving one hash
 		if sub == "notfound" {
 			return nil, false
 		}
@@ -417,6 +433,7 @@ type scenario struct {
 	real     *throttler.NumGoRoutinesThrottler
 	ths      []*thread
 	running  int // admitted (kind "checked") tasks between Start and End
+	inflight int // work items of admitted tasks in flight
 	events   []event
 	diverged string
 	overMax  bool // running > max was observed
@@ -443,6 +460,9 @@ func (sc *scenario) diverge(what string) {
 func (sc *scenario) account(th *thread, op string, res bool, racedLabel bool, scheduled bool) {
 	switch op {
 	case "Check":
+		if !res {
+			th.wleft = 0 // refused: no work will be done for this message
+		}
 		sc.log("Check", th.id, M{"ok": res})
 	case "Start":
 		th.run++
@@ -463,6 +483,31 @@ func (sc *scenario) account(th *thread, op string, res bool, racedLabel bool, sc
 			sc.r.violation(cls+"/"+sc.path, fmt.Sprintf("%s path, max %d: %d admitted tasks are running after StartProcessing of thread %d (%s); schedule so far: %s",
 				sc.path, sc.max, sc.running, th.id, th.sub, sc.summary()), sc.detail())
 		}
+	case "WorkBegin":
+		th.work++
+		if th.kind == "checked" {
+			sc.inflight++
+		}
+		sc.log("WorkBegin", th.id, M{"x": 0})
+		if th.run <= 0 {
+			sc.odd = true
+			sc.r.violation("work-outside-start-end/"+sc.path+"/"+th.sub, fmt.Sprintf("%s path, message class %s: the message is being processed while its task is not "+
+				"registered at the throttler (%d StartProcessing, %d EndProcessing calls so far): the throttler does not bound this work; events: %s",
+				sc.path, th.sub, th.starts, th.ends, sc.summary()), sc.detail())
+		}
+		// more running tasks than max is judged (race or not) where the task starts; here: more work than tasks allow
+		if sc.inflight > sc.max && sc.running <= sc.max {
+			sc.odd = true
+			sc.r.violation("work-in-flight-above-max/"+sc.path, fmt.Sprintf("%s path, max %d: %d admitted messages are being processed at the same time while only %d "+
+				"tasks are registered at the throttler; events: %s", sc.path, sc.max, sc.inflight, sc.running, sc.summary()), sc.detail())
+		}
+	case "WorkEnd":
+		th.work--
+		th.wleft--
+		if th.kind == "checked" {
+			sc.inflight--
+		}
+		sc.log("WorkEnd", th.id, M{"x": 0})
 	case "End":
 		th.run--
 		th.ends++
@@ -495,6 +540,7 @@ func (sc *scenario) detail() M {
 	kinds := make([]M, len(sc.ths))
 	for i, th := range sc.ths {
 		kinds[i] = M{"k": th.kind, "sub": th.sub}
+		_ = i
 	}
 	evs := make([]M, len(sc.events))
 	for i, e := range sc.events {
@@ -520,8 +566,11 @@ func (sc *scenario) drainThread(th *thread) {
 			if !th.returned {
 				sc.r.broken(fmt.Sprintf("%s/%s: thread neither returned nor called the throttler within %v", sc.path, th.sub, waitOp))
 			}
-			if th.run > 0 {
-				th.leaked = true
+			if th.run > 0 || th.wleft > 0 {
+				if th.run > 0 {
+					th.leaked = true
+				}
+				th.wleft = 0
 				if missing++; missing >= 3 {
 					waitOp = 500 * time.Millisecond
 				}
@@ -534,13 +583,18 @@ func (sc *scenario) drainThread(th *thread) {
 }
 
 func (sc *scenario) drain() {
-	for _, th := range sc.ths { // open tasks first: draining must not create an overlap of its own
+	for _, th := range sc.ths { // work in flight first, then open tasks: draining must not create an overlap of its own
+		if th.work > 0 {
+			sc.drainThread(th)
+		}
+	}
+	for _, th := range sc.ths {
 		if th.run > 0 {
 			sc.drainThread(th)
 		}
 	}
 	for _, th := range sc.ths {
-		if !(th.returned && th.run == 0 && th.pending == "") {
+		if !(th.returned && th.run == 0 && th.pending == "" && th.wleft <= 0) {
 			ops := len(sc.events)
 			sc.drainThread(th)
 			if th.kind == "none" && len(sc.events) == ops {
@@ -636,7 +690,7 @@ func (sc *scenario) play(steps []vtrace.Step) {
 				sc.r.broken(fmt.Sprintf("%s/%s: thread did not return", sc.path, th.sub))
 			}
 			sc.log("Skip", t, M{"x": 0})
-		case "Check", "Start", "End":
+		case "Check", "Start", "End", "WorkBegin", "WorkEnd":
 			op, got := th.next(waitOp)
 			if !got {
 				sc.diverge(fmt.Sprintf("thread %d (%s) made no %s call (returned=%v)", t, th.sub, s.A, th.returned))
@@ -652,6 +706,9 @@ func (sc *scenario) play(steps []vtrace.Step) {
 			sc.r.steps++
 			if op == "Check" {
 				want, _ := s.Out["ok"].(bool)
+				if !res {
+					th.wleft = 0
+				}
 				if res != want {
 					sc.diverge(fmt.Sprintf("CanProcess of thread %d returned %v, the specification predicts %v", t, res, want))
 					if res {
@@ -664,6 +721,7 @@ func (sc *scenario) play(steps []vtrace.Step) {
 						}
 					}
 				} else if !res {
+					th.wleft = 0
 					// not admitted: the caller must return without starting
 					if op2, got2 := th.next(waitOp); got2 {
 						th.pending = op2
@@ -672,6 +730,8 @@ func (sc *scenario) play(steps []vtrace.Step) {
 				}
 			} else if want := vtrace.Int(s.St["running"]); want != sc.running {
 				sc.diverge(fmt.Sprintf("%d admitted tasks running after %s(%d), the specification predicts %d", sc.running, op, t, want))
+			} else if want := vtrace.Int(s.St["inflight"]); want != sc.inflight {
+				sc.diverge(fmt.Sprintf("%d admitted messages being processed after %s(%d), the specification predicts %d", sc.inflight, op, t, want))
 			} else if want, got := vtrace.Int(s.St["counter"]), sc.open(); want != got {
 				sc.diverge(fmt.Sprintf("StartProcessing minus EndProcessing calls = %d after %s(%d), the specification's counter is %d", got, op, t, want))
 			}
@@ -729,7 +789,8 @@ func (r *runner) behaviour(b []vtrace.Step) {
 	key := fmt.Sprint(max, path)
 	for i, kv := range kinds {
 		km := kv.(map[string]interface{})
-		th := &thread{id: i + 1, kind: vtrace.Str(km["k"]), sub: vtrace.Str(km["sub"]), g: newGate(real), ret: make(chan error, 1)}
+		th := &thread{id: i + 1, kind: vtrace.Str(km["k"]), sub: vtrace.Str(km["sub"]), wleft: vtrace.Int(km["w"]), g: newGate(real), ret: make(chan error, 1)}
+		w0 := th.wleft
 		switch path {
 		case "single":
 			buildSingle(th)
@@ -741,11 +802,11 @@ func (r *runner) behaviour(b []vtrace.Step) {
 			panic("unknown path " + path)
 		}
 		sc.ths = append(sc.ths, th)
-		kindsM[i] = M{"k": th.kind, "sub": th.sub}
+		kindsM[i] = M{"k": th.kind, "sub": th.sub, "w": w0}
 		key += " " + th.sub
 	}
 	for _, s := range b[1:] {
-		key += fmt.Sprintf(" %s%d", s.A[:1], vtrace.Int(s.In["t"]))
+		key += fmt.Sprintf(" %s%d", s.A, vtrace.Int(s.In["t"]))
 	}
 	sc.play(b[1:])
 	r.beh++
